@@ -1,5 +1,151 @@
-"""Translator part for C20 (filled in below)."""
+"""Translator part for C20: the Flask URL map of the blueprint with the library call(s) every view function
+makes (by `ast`), and the URL every `RemoteStore` method requests.
+
+Called from harness/extract.py (`gen_routes`).  Emits lean/LiquerModel/Gen/Routes.lean.
+"""
+import ast, inspect, textwrap
+
+BLUEPRINT_PREFIX = "/liquer"
+
+STORE_OPS = dict(get_bytes="storeGetBytes", get_metadata="storeGetMetadata", store="storeStore",
+                 store_metadata="storeStoreMetadata", remove="storeRemove", removedir="storeRemovedir",
+                 contains="storeContains", is_dir="storeIsDir", keys="storeKeys", listdir="storeListdir",
+                 makedir="storeMakedir")
+CACHE_OPS = dict(get="cacheGet", get_metadata="cacheGetMetadata", store_metadata="cacheStoreMetadata",
+                 remove="cacheRemove", contains="cacheContains", keys="cacheKeys", clean="cacheClean")
+FUNCS = dict(evaluate="evaluate", evaluate_in_background="evaluateInBackground")
+REMOTE_METHODS = ["get_bytes", "get_metadata", "store", "store_metadata", "remove", "removedir", "contains",
+                  "is_dir", "keys", "listdir", "makedir", "openbin"]
+
+
+def _mentions(node, name):
+    return any(isinstance(n, ast.Name) and n.id == name for n in ast.walk(node))
+
+
+def view_calls(fn, params):
+    """[(op constructor | ('other', target, method), keyarg)] in source order"""
+    try:
+        src = textwrap.dedent(inspect.getsource(fn))
+        tree = ast.parse(src)
+    except (OSError, TypeError, SyntaxError):
+        return None
+    fdef = next((n for n in ast.walk(tree) if isinstance(n, (ast.FunctionDef, ast.AsyncFunctionDef))), None)
+    if fdef is None:
+        return None
+    # local aliases: x = get_store() / x = get_cache()
+    alias = {}
+    reassigned = set()
+    for n in ast.walk(fdef):
+        if isinstance(n, ast.Assign):
+            for t in n.targets:
+                if isinstance(t, ast.Name):
+                    if isinstance(n.value, ast.Call) and isinstance(n.value.func, ast.Name) and n.value.func.id in ("get_store", "get_cache", "command_registry"):
+                        alias[t.id] = n.value.func.id
+                    if t.id in params:
+                        reassigned.add(t.id)
+        elif isinstance(n, ast.AugAssign) and isinstance(n.target, ast.Name) and n.target.id in params:
+            reassigned.add(n.target.id)
+
+    def target_of(v):
+        if isinstance(v, ast.Call) and isinstance(v.func, ast.Name) and v.func.id in ("get_store", "get_cache", "command_registry"):
+            return v.func.id
+        if isinstance(v, ast.Name) and v.id in alias:
+            return alias[v.id]
+        return None
+
+    def keyarg(call):
+        args = list(call.args) + [k.value for k in call.keywords]
+        if args and isinstance(args[0], ast.Name) and args[0].id in params and args[0].id not in reassigned:
+            return "path"
+        if any(_mentions(a, p) for a in args for p in params):
+            return "derived"
+        return "none"
+
+    found = []
+    for n in ast.walk(fdef):
+        if not isinstance(n, ast.Call):
+            continue
+        f = n.func
+        op = None
+        if isinstance(f, ast.Attribute):
+            tg = target_of(f.value)
+            if tg == "get_store":
+                op = STORE_OPS.get(f.attr) or ("other", "store", f.attr)
+            elif tg == "get_cache":
+                op = CACHE_OPS.get(f.attr) or ("other", "cache", f.attr)
+            elif tg == "command_registry":
+                op = "registerRemote" if f.attr == "register_remote_serialized" else None
+        elif isinstance(f, ast.Name) and f.id in FUNCS:
+            op = FUNCS[f.id]
+        if op is not None:
+            found.append(((n.lineno, n.col_offset), op, keyarg(n)))
+    found.sort(key=lambda x: x[0])
+    return [(op, k) for _, op, k in found]
+
+
+def survey_routes():
+    from flask import Flask
+    import liquer.server.blueprint as bp
+    app = Flask("liquer_verif_routes")
+    app.register_blueprint(bp.app, url_prefix=BLUEPRINT_PREFIX)
+    rows = []
+    for rule in app.url_map.iter_rules():
+        if not rule.endpoint.startswith(bp.app.name + "."):
+            continue
+        r = rule.rule
+        if r.startswith(BLUEPRINT_PREFIX):
+            r = r[len(BLUEPRINT_PREFIX):] or "/"
+        fn = app.view_functions.get(rule.endpoint)
+        calls = view_calls(fn, set(rule.arguments)) if fn is not None else None
+        rows.append(dict(rule=r, methods=sorted(set(rule.methods) - {"HEAD", "OPTIONS"}), endpoint=rule.endpoint.split(".", 1)[1],
+                         calls=calls or [], params=sorted(rule.arguments)))
+    rows.sort(key=lambda x: (x["rule"], x["methods"]))
+    return rows
+
+
+def survey_remote():
+    import liquer.remote_store as RS
+    src = textwrap.dedent(inspect.getsource(RS.RemoteStore))
+    cls = next(n for n in ast.walk(ast.parse(src)) if isinstance(n, ast.ClassDef))
+    verbs = dict(fetch="GET", fetch_json="GET", fetch_bytes="GET", post_json="POST", post_bytes="POST")
+    rows = []
+    for fdef in cls.body:
+        if not isinstance(fdef, ast.FunctionDef) or fdef.name not in REMOTE_METHODS:
+            continue
+        reqs = []
+        for n in ast.walk(fdef):
+            if isinstance(n, ast.Call) and isinstance(n.func, ast.Attribute) and isinstance(n.func.value, ast.Name) and n.func.value.id == "self" and n.func.attr in verbs and n.args:
+                a = n.args[0]
+                if isinstance(a, ast.Call) and isinstance(a.func, ast.Attribute) and a.func.attr == "concat_api" and a.args and isinstance(a.args[0], ast.Constant):
+                    reqs.append(((n.lineno, n.col_offset), verbs[n.func.attr], str(a.args[0].value), True))
+                elif isinstance(a, ast.Constant) and isinstance(a.value, str):
+                    reqs.append(((n.lineno, n.col_offset), verbs[n.func.attr], a.value, False))
+                else:
+                    reqs.append(((n.lineno, n.col_offset), verbs[n.func.attr], "?", False))
+        reqs.sort(key=lambda x: x[0])
+        rows.append(dict(method=fdef.name, requests=[(v, s, k) for _, v, s, k in reqs]))
+    rows.sort(key=lambda x: x["method"])
+    return rows
 
 
 def gen(changed, X):
-    pass
+    lc = X.lean_chars
+
+    def op(o):
+        if isinstance(o, tuple):
+            return "(.other %s %s)" % (lc(o[1]), lc(o[2]))
+        return "." + o
+
+    routes, remote = survey_routes(), survey_remote()
+    t = X.HEADER + "import LiquerModel.Web\nnamespace Liquer.Gen\nopen Liquer.Web\n\n"
+    t += "/-- `app.url_map` of a fresh Flask app with the blueprint registered (prefix `%s` stripped); `calls`: the\nlibrary calls of the view function on `get_store()` / `get_cache()` / `evaluate` / the command registry, by `ast`,\nin source order, with the origin of the key argument -/\n" % BLUEPRINT_PREFIX
+    t += "def routes : List Route := [\n%s]\n\n" % ",\n".join(
+        "  { rule := %s,\n    methods := [%s], endpoint := %s,\n    calls := [%s] }" % (
+            lc(r["rule"]), ", ".join(lc(m) for m in r["methods"]), lc(r["endpoint"]),
+            ", ".join("(%s, .%s)" % (op(o), k) for o, k in r["calls"])) for r in routes)
+    t += "/-- `RemoteStore`: the requests each store method issues itself (verb, URL suffix, key appended) -/\n"
+    t += "def remoteStoreRows : List RemoteRow := [\n%s]\n\n" % ",\n".join(
+        "  { method := %s, requests := [%s] }" % (lc(r["method"]), ", ".join("(%s, %s, %s)" % (lc(v), lc(s), "true" if k else "false") for v, s, k in r["requests"]))
+        for r in remote)
+    t += "end Liquer.Gen\n"
+    X.write_if_changed("Routes.lean", t, changed)
